@@ -65,6 +65,9 @@ def subst(x, mapping):
     return x
 
 
+LEAF_ROWS = 2  # leading length given to a structural leaf when the order of its rows matters
+
+
 def _num(x, n_env):
     if isinstance(x, Poly):
         v = x
@@ -123,6 +126,44 @@ def unroll(x, n_env, interp=None):
         inner = unroll(args[0], n_env, interp)
         if kw.get("axis", args[2] if len(args) > 2 else None) == 0 and isinstance(inner, Stack) and len(inner.items) == 1:
             return Stack(inner.items * _num(args[1], n_env))
+        if kw.get("axis", args[2] if len(args) > 2 else None) == 0 and isinstance(inner, Term) and not inner.args:
+            # repeat along the leading axis of a LEAF: every row k times.  A leaf is modelled with two rows
+            # (the smallest leading length for which row order matters); rows are tokens ("row", leaf, j)
+            k = _num(args[1], n_env)
+            rows = []
+            for j in range(LEAF_ROWS):
+                rows += [Term("row", inner, j)] * k
+            return Term("rows", inner, tuple(rows))
+    if (op == "method" and len(a) >= 3 and a[1] == "reshape") or op == "jnp.reshape":
+        # rows(...).reshape((k, *shape(leaf))): regroup the row sequence into k blocks of the leaf's leading length
+        if op == "method":
+            src, shp = unroll(a[0], n_env, interp), (a[2][0] if len(a[2]) == 1 else tuple(a[2]))
+        else:
+            args, kw = a
+            src, shp = unroll(args[0], n_env, interp), kw.get("shape", kw.get("newshape", args[1] if len(args) > 1 else None))
+        if isinstance(src, Term) and src.op == "rows":
+            leaf, rows = src.args
+            lead = _lead_dim(shp)
+            if lead is not None and _rest_is_shape_of(shp, leaf):
+                k = _num(lead, n_env)
+                if k * LEAF_ROWS == len(rows):
+                    groups = []
+                    for i in range(k):
+                        g = tuple(rows[i * LEAF_ROWS : (i + 1) * LEAF_ROWS])
+                        whole = tuple(Term("row", leaf, j) for j in range(LEAF_ROWS))
+                        groups.append(leaf if g == whole else Term("rows", leaf, g))
+                    return Stack(groups)
+    if op == "jnp.broadcast_to":
+        # broadcast_to(expand_dims(x, 0), (k,) + shape(x))  ==  k copies of x along a new leading axis
+        args, kw = a
+        inner = unroll(args[0], n_env, interp)
+        shp = kw.get("shape", args[1] if len(args) > 1 else None)
+        lead = _lead_dim(shp)
+        if isinstance(inner, Stack) and len(inner.items) == 1 and lead is not None:
+            return Stack(inner.items * _num(lead, n_env))
+        if lead is not None and not isinstance(inner, Stack) and _rest_is_shape_of(shp, args[0]):
+            # broadcast_to(x, (k, *shape(x))): k copies of the leaf x along a new leading axis
+            return Stack([inner] * _num(lead, n_env))
     if op == "jnp.concatenate":
         args, kw = a
         parts = [unroll(p, n_env, interp) for p in args[0]]
@@ -142,6 +183,33 @@ def unroll(x, n_env, interp=None):
             return jnpops.binop(interp, node, l, r, None)
         return Term("binop", a[0], l, r)
     return Term(op, *[unroll(y, n_env, interp) for y in a])
+
+
+def _lead_dim(shp):
+    """first entry of a shape written as (k, ...) or (k,) + <anything>"""
+    shp = thaw(shp) if isinstance(shp, tuple) and shp and shp[0] in ("list", "tuple", "dict") else shp
+    if isinstance(shp, (tuple, list)) and shp and not isinstance(shp[0], (tuple, list, Term)):
+        return shp[0]
+    if isinstance(shp, Term) and shp.op == "binop" and shp.args[0] == "add":
+        return _lead_dim(shp.args[1])
+    return None
+
+
+def _rest_is_shape_of(shp, operand):
+    """the shape is (k, *shape(operand)) or (k,) + shape(operand)"""
+    shp = thaw(shp) if isinstance(shp, tuple) and shp and shp[0] in ("list", "tuple", "dict") else shp
+
+    def is_shape(t):
+        return isinstance(t, Term) and t.op == "jnp.shape" and thaw(t.args[0])[0] == thaw(operand) if isinstance(t, Term) and t.op == "jnp.shape" else False
+
+    try:
+        if isinstance(shp, (tuple, list)) and len(shp) == 2 and isinstance(shp[1], Term) and shp[1].op == "star":
+            return is_shape(shp[1].args[0])
+        if isinstance(shp, Term) and shp.op == "binop" and shp.args[0] == "add":
+            return is_shape(shp.args[2])
+    except Exception:
+        return False
+    return False
 
 
 def _first_stack(x):
